@@ -186,21 +186,21 @@ Proof.
 Qed.
 
 (* ---------- what is proved about each function ---------- *)
-Definition E_pw f := forall p sc, agree (interp (pwp f p (erase sc)) (sc_intls sc)) (pw f p sc).
+Definition E_pw f := forall k p sc, agree (interp (pwp f k p (erase sc)) (sc_intls sc)) (pw f k p sc).
 Definition E_ew f := forall e sc, agree (interp (ewp f e (erase sc)) (sc_intls sc)) (ew f e sc).
 Definition E_iw f := forall i sc, agree (interp (iwp f i (erase sc)) (sc_intls sc)) (iw f i sc).
 Definition E_ir f := forall i sc, agree (interp (irp f i (erase sc)) (sc_intls sc)) (ir f i sc).
-Definition E_mt f := forall p e sc, agree (interp (mtp f p e (erase sc)) (sc_intls sc)) (mt f p e sc).
-Definition E_tr f := forall p exp sc, agree (interp (trp f p exp (erase sc)) (sc_intls sc)) (tr f p exp sc).
+Definition E_mt f := forall k p e sc, agree (interp (mtp f k p e (erase sc)) (sc_intls sc)) (mt f k p e sc).
+Definition E_tr f := forall k p exp sc, agree (interp (trp f k p exp (erase sc)) (sc_intls sc)) (tr f k p exp sc).
 Definition E_ga f := forall oa sc, agree (interp (gap f oa (erase sc)) (sc_intls sc)) (ga f oa sc).
 Definition E_all f := E_pw f /\ E_ew f /\ E_iw f /\ E_ir f /\ E_mt f /\ E_tr f /\ E_ga f.
 
 (* ---------- loops ---------- *)
-Lemma pattern_loop_agree f p len :
+Lemma pattern_loop_agree f k p len :
   E_mt f ->
   forall els sc,
-    agree (interp (pattern_loop_p overflow_checks transform b (mtp f p) len els (erase sc)) (sc_intls sc))
-          (pattern_loop overflow_checks transform b (mt f p) len els sc).
+    agree (interp (pattern_loop_p overflow_checks transform b (mtp f k p) len els (erase sc)) (sc_intls sc))
+          (pattern_loop overflow_checks transform b (mt f k p) len els sc).
 Proof.
   intros Hmt. induction els as [|elem rest IH]; intros sc; cbn [pattern_loop pattern_loop_p].
   - reflexivity.
@@ -211,7 +211,7 @@ Proof.
       destruct (u8_add1 overflow_checks (sc_placeables sc)) as [n|t|]; cbn [plift pbind obind]; [|reflexivity|reflexivity].
       cbv zeta. cbn [sc_placeables set_placeables].
       destruct (N.ltb MAX_PLACEABLES n); [reflexivity|].
-      apply agree_bind; [apply (Hmt p expression (set_placeables sc n))|].
+      apply agree_bind; [apply (Hmt k p expression (set_placeables sc n))|].
       intros o1 sc1.
       apply agree_bind; [apply IH|].
       intros o2 sc2. reflexivity.
@@ -241,21 +241,21 @@ Qed.
 
 (* ---------- steps ---------- *)
 Lemma eq_pw f : E_mt f -> E_pw (S f).
-Proof. intros Hmt p sc. rewrite pw_S. apply (pattern_loop_agree f p _ Hmt). Qed.
+Proof. intros Hmt k p sc. rewrite pw_S. apply (pattern_loop_agree f k p _ Hmt). Qed.
 
 Lemma eq_mt f : E_ew f -> E_mt (S f).
 Proof.
-  intros Hew p e sc. rewrite mt_S. cbn [maybe_track_p]. cbv zeta. rewrite erase_travelled.
+  intros Hew k p e sc. rewrite mt_S. cbn [maybe_track_p]. cbv zeta. rewrite erase_travelled.
   apply agree_bind.
-  - destruct (sc_travelled sc); [apply (Hew e (set_travelled sc [p])) | apply Hew].
+  - destruct (sc_travelled sc); [apply (Hew e (set_travelled sc [k])) | apply Hew].
   - intros o sc'. rewrite erase_dirty. destruct (sc_dirty sc'); reflexivity.
 Qed.
 
 Lemma eq_tr f : E_pw f -> E_tr (S f).
 Proof.
-  intros Hpw p exp sc. rewrite tr_S. cbn [track_p]. rewrite erase_travelled.
-  destruct (pattern_mem p (sc_travelled sc)); [reflexivity|].
-  cbv zeta. apply agree_bind; [apply (Hpw p (set_travelled sc (p :: sc_travelled sc)))|].
+  intros Hpw k p exp sc. rewrite tr_S. cbn [track_p]. rewrite erase_travelled.
+  destruct (key_mem k (sc_travelled sc)); [reflexivity|].
+  cbv zeta. apply agree_bind; [apply (Hpw (Some k) p (set_travelled sc (Some k :: sc_travelled sc)))|].
   intros o sc'. reflexivity.
 Qed.
 
@@ -288,10 +288,10 @@ Lemma term_body_agree f id attribute exp sc :
                      match attribute with
                      | Some attr =>
                          match find_attribute attributes attr with
-                         | Some v => trp f v exp (erase sc)
+                         | Some v => trp f (PKey true id (Some attr)) v exp (erase sc)
                          | None => plift (write_ref_error exp (erase sc))
                          end
-                     | None => trp f value exp (erase sc)
+                     | None => trp f (PKey true id None) value exp (erase sc)
                      end
                  | None => plift (write_ref_error exp (erase sc))
                  end) (sc_intls sc))
@@ -373,9 +373,9 @@ Proof.
     + apply eq_ga; assumption.
 Qed.
 
-Lemma eq_pr f : forall p sc, agree (interp (prp f p (erase sc)) (sc_intls sc)) (pr f p sc).
+Lemma eq_pr f : forall k p sc, agree (interp (prp f k p (erase sc)) (sc_intls sc)) (pr f k p sc).
 Proof.
-  destruct f as [|f]; intros p sc; [reflexivity|].
+  destruct f as [|f]; intros k p sc; [reflexivity|].
   rewrite pr_S. cbn [pattern_resolve_p].
   destruct (eq_all f) as (Hpw & _).
   destruct (pattern_elements p) as [|[value|e] [|x r]]; try reflexivity;
@@ -384,14 +384,14 @@ Qed.
 
 (* the process of a format_pattern call, run against the table `c` the way ResolverModel.v does, returns what
    ResolverModel.format_pattern returns from `c`: same text, same scope up to the memoizer, same final table *)
-Theorem format_pattern_p_eq fuel p c :
+Theorem format_pattern_p_eq fuel top p c :
   agree (interp (format_pattern_p overflow_checks call_function transform formatter as_string as_string_threadsafe
-                   unescape_write unescape_to_string f64_from_str fl b args fuel p) c)
+                   unescape_write unescape_to_string f64_from_str fl b args fuel top p) c)
         (format_pattern overflow_checks call_function transform formatter rules custom
-           unescape_write unescape_to_string f64_from_str b args fuel p c).
+           unescape_write unescape_to_string f64_from_str b args fuel top p c).
 Proof.
   unfold format_pattern_p, format_pattern.
-  apply agree_bind; [apply (eq_pr (S fuel) p (scope_new c))|].
+  apply agree_bind; [apply (eq_pr (S fuel) top p (scope_new c))|].
   intros v sc'. reflexivity.
 Qed.
 
@@ -796,14 +796,14 @@ Lemma seq_result_format rq c :
   cache_ok rules c ->
   forall text sc,
     format_pattern overflow_checks call_function transform formatter rules as_string_threadsafe
-      unescape_write unescape_to_string f64_from_str b (fr_args rq) (fuel_of b (fr_pattern rq)) (fr_pattern rq) c
+      unescape_write unescape_to_string f64_from_str b (fr_args rq) (fuel_of b (fr_pattern rq)) (fr_top rq) (fr_pattern rq) c
     = Done (text, sc) ->
     seq_result rq = Done (text, erase sc).
 Proof.
   intros Hc text sc E. unfold seq_result. rewrite <- (interp_pure _ c Hc).
   pose proof (format_pattern_p_eq overflow_checks call_function transform formatter rules as_string as_string_threadsafe
                 unescape_write unescape_to_string f64_from_str Concurrent b (fr_args rq)
-                (fuel_of b (fr_pattern rq)) (fr_pattern rq) c) as A.
+                (fuel_of b (fr_pattern rq)) (fr_top rq) (fr_pattern rq) c) as A.
   change (stringify_value as_string as_string_threadsafe Concurrent) with as_string_threadsafe in A.
   rewrite E in A. cbn [agree] in A. unfold ConcurrentBundle.request_proc. rewrite A. reflexivity.
 Qed.
@@ -861,7 +861,7 @@ Lemma all_good programs :
 Proof.
   intros (H1 & H2 & H3). apply Forall_forall. intros rq Hin.
   destruct (format_pattern_total overflow_checks call_function transform formatter rules as_string_threadsafe
-              unescape_write unescape_to_string f64_from_str b (fr_args rq) H1 H2 (H3 rq Hin) (fr_pattern rq) [])
+              unescape_write unescape_to_string f64_from_str b (fr_args rq) H1 H2 (H3 rq Hin) (fr_top rq) (fr_pattern rq) [])
     as (text & sc & E & _).
   exists (text, erase sc).
   eapply seq_result_format; [exact (cache_ok_nil rules) | exact E].
@@ -878,7 +878,7 @@ Lemma sched_indep programs sched :
     forall c, cache_ok rules c ->
       r = observe_f (format_pattern overflow_checks call_function transform formatter rules as_string_threadsafe
                        unescape_write unescape_to_string f64_from_str b (fr_args rq) (fuel_of b (fr_pattern rq))
-                       (fr_pattern rq) c).
+                       (fr_top rq) (fr_pattern rq) c).
 Proof.
   intros Hv s.
   split; [apply run_reqs|].
@@ -896,7 +896,7 @@ Proof.
     - apply in_map, (nth_error_In _ _ N).
     - unfold thread_reqs. apply in_or_app. left. apply (in_map fst _ _ Hin). }
   destruct (format_pattern_total overflow_checks call_function transform formatter rules as_string_threadsafe
-              unescape_write unescape_to_string f64_from_str b (fr_args rq) H1 H2 (H3 rq Hrq) (fr_pattern rq) c)
+              unescape_write unescape_to_string f64_from_str b (fr_args rq) H1 H2 (H3 rq Hrq) (fr_top rq) (fr_pattern rq) c)
     as (text & sc & E & _).
   rewrite E, Er. cbn. eapply seq_result_format; [exact Hcache | exact E].
 Qed.
@@ -920,7 +920,7 @@ Lemma custom_values :
     r1 = r2 /\
     r1 = observe_f (format_pattern overflow_checks call_function transform formatter rules as_string_threadsafe
                       unescape_write unescape_to_string f64_from_str b (fr_args rq) (fuel_of b (fr_pattern rq))
-                      (fr_pattern rq) []).
+                      (fr_top rq) (fr_pattern rq) []).
 Proof.
   intros until r2. intros V1 V2 Hc N1 N2 I1 I2.
   destruct (sched_indep overflow_checks call_function transform formatter as_string1 as_string_threadsafe
